@@ -27,6 +27,7 @@ type Obligation struct {
 	Path    string
 	Only    bool // clause-level property attribution: belongs only to Props
 	WantSat bool // vacuity query: must be satisfiable
+	Any     bool // vacuity over paths: it is enough that ONE of the queries with this name is satisfiable
 	Src     string
 }
 
